@@ -399,3 +399,71 @@ Qed.
 (* the two layers composed: whatever text the PEG model of pest accepts, the interpretation cannot panic *)
 Theorem peg_then_interp_no_panic : forall text t, peg_parse text = Ok (Some t) -> no_panic (interp t).
 Proof. intros text t H. apply interp_no_panic. apply (peg_tree_shape text t H). Qed.
+
+(* ------------------------------------------------------------------------------------------ the PEG model itself has no panic outcome *)
+
+Definition npr (x : pres) : Prop := forall s, x <> Panic s.
+
+Lemma npr_ok : forall o, npr (Ok o). Proof. intros o s H. discriminate H. Qed.
+Lemma npr_fuel : npr OutOfFuel. Proof. intros s H. discriminate H. Qed.
+
+Lemma npr_then : forall x k, npr x -> (forall i p, npr (k i p)) -> npr (then_ x k).
+Proof.
+  intros x k Hx Hk s. unfold then_. destruct x as [[[[i1 p1] t1] |] | s' |]; try (intros H; discriminate H).
+  - pose proof (Hk i1 p1 s) as N. destruct (k i1 p1) as [[[[i2 p2] t2] |] | s'' |]; try (intros H; discriminate H). exact N.
+  - exact (Hx s).
+Qed.
+
+Lemma npr_pass : forall (x : pres) (f : pout -> pres) (y : pres),
+  npr x -> (forall o, npr (f o)) -> npr y ->
+  npr (match x with Ok (Some o) => f o | Ok None => y | Panic s => Panic s | OutOfFuel => OutOfFuel end).
+Proof.
+  intros x f y Hx Hf Hy s. destruct x as [[o |] | s' |]; [apply Hf | apply Hy | exact (Hx s) | apply npr_fuel].
+Qed.
+
+Lemma run_npr : forall fuel m la t inp pos, npr (run grammar fuel m la t inp pos).
+Proof.
+  induction fuel as [| f IH]; intros m la t inp pos; [apply npr_fuel |].
+  assert (SK : forall i p, npr (if mode_is_nonatomic m then run grammar f m la TSkip i p else Ok (Some (i, p, [])))).
+  { intros i p. destruct (mode_is_nonatomic m); [apply IH | apply npr_ok]. }
+  cbn [run]. destruct t as [e | r | k | k |].
+  - destruct e as [s | s | a b | r | b | a b | a b | a | a | a | a | a]; try apply npr_ok; try apply IH.
+    + destruct b; try apply npr_ok. destruct inp; apply npr_ok.
+    + apply npr_then; [apply IH | intros i1 p1]. apply npr_then; [apply SK | intros i2 p2; apply IH].
+    + pose proof (IH m la (TExpr a) inp pos) as N. intros s.
+      destruct (run grammar f m la (TExpr a) inp pos) as [[o |] | s' |]; try (intros H; discriminate H); [apply IH | exact (N s)].
+    + pose proof (IH m la (TExpr a) inp pos) as N. intros s.
+      destruct (run grammar f m la (TExpr a) inp pos) as [[o |] | s' |]; try (intros H; discriminate H). exact (N s).
+    + pose proof (IH m la (TExpr a) inp pos) as N. intros s.
+      destruct (run grammar f m la (TExpr a) inp pos) as [[[[i1 p1] t1] |] | s' |]; try (intros H; discriminate H); [| exact (N s)].
+      apply npr_then; [apply npr_ok | intros; apply IH].
+    + pose proof (IH m true (TExpr a) inp pos) as N. intros s.
+      destruct (run grammar f m true (TExpr a) inp pos) as [[o |] | s' |]; try (intros H; discriminate H). exact (N s).
+    + pose proof (IH m true (TExpr a) inp pos) as N. intros s.
+      destruct (run grammar f m true (TExpr a) inp pos) as [[o |] | s' |]; try (intros H; discriminate H). exact (N s).
+  - destruct (lookup_rule r grammar) as [[md body] |]; [| apply npr_ok].
+    match goal with |- npr (match ?x with _ => _ end) => assert (N : npr x) by apply IH; intros s; destruct x as [[[[i1 p1] t1] |] | s' |] end;
+      try (intros H; discriminate H); [| exact (N s)].
+    destruct md; try (intros H; discriminate H); destruct (negb la && negb _); intros H; discriminate H.
+  - destruct k as [a | | |]; try apply IH.
+    + apply npr_then; [apply SK | intros; apply IH].
+    + apply npr_then; [apply IH | intros; apply IH].
+  - pose proof (IH m la (TStep k) inp pos) as N. intros s.
+    destruct (run grammar f m la (TStep k) inp pos) as [[[[i1 p1] t1] |] | s' |]; try (intros H; discriminate H); [| exact (N s)].
+    apply npr_then; [apply npr_ok | intros; apply IH].
+  - destruct (has_rule grammar R_WHITESPACE); destruct (has_rule grammar R_COMMENT); try apply IH; try apply npr_ok.
+    apply npr_then; [apply IH | intros; apply IH].
+Qed.
+
+(* the text-level model never has a panic outcome: description, error, or (unproved to be impossible) out of fuel *)
+Theorem gsd_model_never_panics : forall text s, gsd_model text <> Panic s.
+Proof.
+  intros text s. unfold gsd_model.
+  destruct (peg_parse text) as [[t |] | s' |] eqn:E; try (intros H; discriminate H).
+  - pose proof (peg_then_interp_no_panic text t E) as N.
+    destruct (interp t); cbn [to_res no_panic] in *; [intros H; discriminate H | intros H; discriminate H | contradiction].
+  - exfalso. unfold peg_parse in E.
+    pose proof (run_npr (peg_fuel text) MdNonAtomic false (TCall R_gsd) text 0) as N.
+    destruct (run grammar (peg_fuel text) MdNonAtomic false (TCall R_gsd) text 0) as [[[[i p] toks] |] | s'' |];
+      try discriminate E; [destruct toks as [| ? [| ? ?]]; discriminate E | exact (N s'' eq_refl)].
+Qed.
